@@ -349,8 +349,17 @@ for (rid, prop) in [("R21", "C10"), ("R24", "C19")]:
 # made of the seeded tree without knowing about the seed; the bug survives (the seed's demo still fails) and the
 # property's check must still fire.
 RS = [('C01-a4', 'D1'), ('C02-a2', 'T-couple'), ('C03-a4', 'D3'), ('C04-a4', 'T-price-dur'), ('C05-a3', 'T-aliaskey'), ('C06-a2', 'T-refund-class'), ('C07-a2', 'G-rmv'), ('C08-a2', 'T-claim'), ('C09-a2', 'G-store-upd'), ('C10-a4', 'G-renew'), ('C11-a3', 'T-sched-shard'), ('C12-a2', 'T-replace'), ('C13-a3', 'CAP-sched-delete'), ('C14-a1', 'T-couple'), ('C15-a4', 'G-distinct'), ('C16-a4', 'T-persist'), ('C17-a3', 'G-bind'), ('C18-a4', 'E6-all'), ('C19-a2', 'G-fish'), ('C20-a3', 'G-share-ratio')]
+# second, styled round (DESIGN 8.5f): the refactoring agent was asked for one named style per seed (guard clauses,
+# enum classification, parameter / result records, phase split ...)
+RS += [('C01-a2', 'D3'), ('C02-a3', 'L2-nilarg'), ('C03-a1', 'D3'), ('C04-a2', 'T-refund-class'), ('C05-a2', 'T-rollback'), ('C06-a1', 'T-booked'),
+       ('C07-a4', 'T-booked'), ('C08-a4', 'T-couple'), ('C09-a1', 'G-renew'), ('C10-a1', 'G-payer'), ('C11-a2', 'T-takeover'), ('C12-a1', 'T-timeout-height'),
+       ('C13-a1', 'T-partition'), ('C14-a3', 'T-accum-scope'), ('C15-a1', 'G-elig-2'), ('C17-a2', 'T-paykey'), ('C18-a2', 'E6-all'),
+       ('C19-a1', 'G-fault'), ('C20-a2', 'G-demote')]
 for (sid, rule) in RS:
     P.append(("RS-" + sid, sid.split("-")[0], rule, f"/verif/refactored_seeds/{sid}/combined.diff"))
+# a validation phase that returns a by-value request record with conditionally assigned fields (DESIGN 8.6): the
+# rules of Store are left undecided, the seeded defect included
+P.append(("RS-C16-a2", "C16", "~undecided", "/verif/refactored_seeds/C16-a2/combined.diff"))
 # round r1: seeds made on a refactored tree (patch.diff = refactor + seed relative to the pinned tree)
 for (sid, rule) in [("C01", "D3"), ("C02", "T-couple"), ("C03", "D3"), ("C04", "T-replica-dec"), ("C05", "T-persist"), ("C06", "T-accrual-clock"),
                     ("C07", "T-release-amount"), ("C08", "T-claim"), ("C09", "T-sigowner"), ("C10", "G-payer"), ("C11", "T-sched-meta"),
